@@ -75,7 +75,8 @@ def c11_fire(ctx, carrier, step_ft, kw, wind, rlo, rhi, mode, rmax, fine=None):
         S = float(step_ft * fine)
         tau = 0.0
     else:
-        S = float(max(rhi, step_ft))
+        # several recording distances inside the range, so that rows recorded by the clock fall BETWEEN rows recorded by distance
+        S = float(max(rhi / 3.0, step_ft))
         tau = ctx.real('time_step', 1e-4, 0.5)
     runs = {}
     results = {}
@@ -115,6 +116,22 @@ def c11_fire(ctx, carrier, step_ft, kw, wind, rlo, rhi, mode, rmax, fine=None):
         # nothing else is returned - except the documented padding row (flag NONE) when fewer than two rows were recorded
         ctx.check('no_rows_besides_the_recorded_ones', len(rows) == len(recorded) or (len(recorded) < 2 and len(rows) == 2 and rows[-1].flag == TF.NONE),
                   info={'rows': len(rows), 'recorded': len(recorded)})
+    # 2b. asking for rows by the clock as well only ADDS rows: the rows recorded by distance are those of the request without a time step
+    if mode == 'time':
+        base = calc.fire(shot, U.Foot(R), U.Foot(S), False, 0.0).trajectory
+        base = [r for r in base if r.flag & TF.RANGE]
+        timed = list(runs[False][0])
+        # every row of the plain request occurs, in order, among the rows of the request with a time step (same distance, time, height terms)
+        j, missing = 0, []
+        for a in base:
+            while j < len(timed) and not (ctx.same_term(a.distance.raw_value, timed[j].distance.raw_value) and ctx.same_term(a.time, timed[j].time)
+                                          and ctx.same_term(a.height.raw_value, timed[j].height.raw_value)):
+                j += 1
+            if j == len(timed):
+                missing.append(a.distance.raw_value)
+                break
+            j += 1
+        ctx.check('time_step_only_adds_rows', not missing, info={'rows_without_time_step': len(base), 'rows_with_time_step': len(timed)})
     # 3. extra = plain + events
     plain, ext = runs[False][0], runs[True][0]
     ext_range = [r for r in ext if r.flag & TF.RANGE]
